@@ -15,6 +15,7 @@ mod detect;
 mod slice;
 mod loadseq;
 mod serde_rt;
+mod fstraw;
 mod ghws;
 
 fn dispatch(cmd: &str, args: &[&str]) -> String {
@@ -41,6 +42,8 @@ fn dispatch(cmd: &str, args: &[&str]) -> String {
         "serdev" => serde_rt::run_vcd(args),
         "serdej" => serde_rt::run_json(args),
         "serdede" => serde_rt::run_de(args),
+        "fsthier" => fstraw::run_hier(args),
+        "fstsig" => fstraw::run_sig(args),
         "ghwslices" => slice::run_ghw(args),
         "ghwaliases" => slice::run_aliases(args),
         "canonfile" => slice::run_canonfile(args),
